@@ -245,6 +245,16 @@ def run(pid, extra=None):
     for b in behaviours[:3]:
         rep.sample({"behaviour": b[:3]})
     classify(rep, pid, specs, behaviours, agg)
+    if pid == "C03":
+        strata_ = {}
+        for b in behaviours:
+            t_, g_ = b[0]["text"], b[0]["bg"]
+            lt, lb = refs.wcag_lum(t_), refs.wcag_lum(g_)
+            key = ("text lighter" if lt > lb else "text darker") + " / " + ("dark" if lb < 0.1 else "light" if lb > 0.5 else "mid") + " background"
+            nw = sum(1 for e in b[1:] if e["witKind"] == "witness")
+            if nw:
+                strata_[key] = strata_.get(key, 0) + nw
+        rep.extra["witness_events_by_stratum"] = strata_
     if pid in ("C01", "C04", "C16"):
         refinement(rep, behaviours, cap=500 if t == "quick" else 20000)
     if extra:
